@@ -76,6 +76,14 @@ def run(facts, rep, tier, ctx):
         if w17.present():
             c07.gate_rules(facts, _Pf17(rep, ("A/" if w17.asyncw else "") + "R17.4g"), w17, D)
             c09.relative_join_rules(facts, rep if not w17.asyncw else _Pf17(rep, "A"), w17, rule="R17.4j")
+    # ... and the physical translator hands every name to the OS as it is (a backslash inside a segment is part of the name, not
+    # a separator: `create_dir_all("/reports\\2024")` must create one directory); the path type's create_dir hands the backend's
+    # error class on through any number of stacked adapters (a re-wrapped DirectoryExists is not tolerated one level up)
+    from . import c12 as _c12k
+    for w17 in (ws, World(facts, True)):
+        if w17.present():
+            c07.physical_gate(facts, _Pf17(rep, ("A/" if w17.asyncw else "") + "R17.4t"), w17, D)
+            _c12k.kind_preserving_relabels(facts, rep, w17, ("A/" if w17.asyncw else "") + "R17.2k", only=("create_dir", "create_dir_all"))
     c09.table_u(facts, rep, ws, "R17.4o", only=("create_dir",))
     c09.materialisation_rules(facts, rep, ws, "R17.4o")
     c10.marker_rules(facts, rep, ws, prefix="R17.4m", only=("R10.3", "R10.2"))
